@@ -514,7 +514,13 @@ pub fn exec_step<T: HashAlgorithm>(w: &mut World<T>, step: &J) -> anyhow::Result
                     let (view, probes_ok, ref_root, _) = w.observe_with(&|k| sess.read(k));
                     let prev_ok = sess.prev_root().into_inner() == ref_root;
                     let check_proofs = step.get("proofs").and_then(|x| x.as_bool()).unwrap_or(true);
-                    let (pok, np, pmsg) = if check_proofs && prev_ok { w.proofs_ok(&sess) } else { (true, 0, String::new()) };
+                    // a panic inside the prover is a failed proof (C05), not a failed begin_session
+                    let (pok, np, pmsg) = if check_proofs && prev_ok {
+                        std::panic::catch_unwind(std::panic::AssertUnwindSafe(|| w.proofs_ok(&sess)))
+                            .unwrap_or((false, 0, "prove panicked".to_string()))
+                    } else {
+                        (true, 0, String::new())
+                    };
                     ev.insert("res".into(), J::String("Ok".into()));
                     ev.insert("view".into(), J::Object(view));
                     ev.insert("viewProbesOk".into(), J::Bool(probes_ok));
